@@ -205,6 +205,7 @@ def cases(tier):
                     continue
                 cs.append(Case('promote-%s-%s' % (op, nm), body_promote, ifconvert=IFC,
                                abstract_products=(op == 'mul'),
+                               query_timeout_ms=(900000 if op == 'div' else 120000),
                                params={'types': (ta, tb), 'op': op}, timeout_s=3000))
     for ta in 'isd':
         cs.append(Case('subself-' + ta, body_neutral, params={'types': (ta, ta), 'which': 'subself'}))
